@@ -122,10 +122,11 @@ def small_shapes():
 def rand_operand(rng, ctx):
     r = rng.random()
     z = rng.choice([0, 1, 2, 3, 4, 5, 7, -1, -2, rng.randint(-20, 20)])
+    signs = rng.choice(['-', '--', '+', '+-', '-+-', '- -']) if rng.random() < 0.3 else ''
     if r < 0.5:
-        return ['lit', z, 'plain']
+        return ['lit', z, 'plain', signs]
     if r < 0.7:
-        return ['lit', z, 'macro']
+        return ['lit', z, 'macro', signs]
     return ['cnt', rng.randint(0, ctx['ncnt'] - 1)]
 
 
